@@ -151,7 +151,7 @@ def r3(F, R):
     rs, root, tree = roles.attempt_tree(F)
     b_step, fo = c02.run_step_body(F, tree)
     # inner run block: step fn receives &mut world where world = world_opt or the created one; Ok result carries that world
-    inner = [nb for nb in F.nested(b_step) if nb is not b_step and nb.is_coroutine and any(callee_is(t, r"Collection::<.*>::find$") for _, t in nb.calls())]
+    inner = [nb for nb in roles.family(F, b_step) if nb is not b_step and nb.is_coroutine and any(callee_is(t, r"Collection::<.*>::find$") for _, t in nb.calls())]
     if len(inner) != 1:
         raise Unverifiable("run_step inner block")
     ib = inner[0]
